@@ -194,7 +194,7 @@ fn judge_os(run: &Run, path: &str) -> Vec<(String, String)> {
 
 pub fn run(ctx: &Ctx) -> Collector {
     let col = Collector::new("C19", "fault_enumeration");
-    col.set_rule("cases = for SvgBuilder::to_file and ImageBuilder::to_file on 8 (thorough 14) builder/symbol targets whose output sizes range from 0.3 KB to 0.5 MB and straddle the 4 KiB, 8 KiB and 64 KiB buffer sizes: (i) real OS faults: missing directory, path is a directory, /dev/full (ENOSPC at write time), path containing NUL, empty path; (ii) faults injected below the crate by an LD_PRELOAD shim over open/open64/openat/write/close: ALL fault sequences of up to 2 deviations, a deviation = (k-th open of the target, class in {EACCES, EROFS, ENOENT, EISDIR, ENOSPC, EMFILE}) or (k-th write to the target, class in {ENOSPC, EIO, EDQUOT, EINTR, short 1 byte, short n/2, short n-1}), k ranging over every call index in the syscall log of the run being extended (DFS over prefixes); each run is a child process calling the real to_file, once with no file present and once over a stale 1 MiB file (longer than any output); oracle: no panic/abort; Ok => file bytes = to_str()/to_bytes() of the same builder; a delivered hard fault => Err; retryable faults (EINTR, short writes) may end either way; non-trivial = a fault was delivered; distinct = distinct (target, plan) pairs with distinct syscall logs");
+    col.set_rule("cases = for SvgBuilder::to_file and ImageBuilder::to_file on 8 (thorough 14) builder/symbol targets whose output sizes range from 0.3 KB to 0.5 MB and straddle the 4 KiB, 8 KiB and 64 KiB buffer sizes: (i) real OS faults: missing directory, path is a directory, /dev/full (ENOSPC at write time), path containing NUL, empty path, long paths with multi-byte characters at four alignments, a 300-character name; (i') no fault over 7 kinds of file already present (identical, same length differing in the last / first / one late byte, longer, shorter, empty); (ii) faults injected below the crate by an LD_PRELOAD shim over open/open64/openat/write/close: ALL fault sequences of up to 2 deviations, a deviation = (k-th open of the target, class in {EACCES, EROFS, ENOENT, EISDIR, ENOSPC, EMFILE}) or (k-th write to the target, class in {ENOSPC, EIO, EDQUOT, EINTR, short 1 byte, short n/2, short n-1}), k ranging over every call index in the syscall log of the run being extended (DFS over prefixes); each run is a child process calling the real to_file, once with no file present and once over a stale 1 MiB file (longer than any output); oracle: no panic/abort; Ok => file bytes = to_str()/to_bytes() of the same builder; a delivered hard fault => Err; retryable faults (EINTR, short writes) may end either way; non-trivial = a fault was delivered; distinct = distinct (target, plan) pairs with distinct syscall logs");
     col.assume("the OS below the syscall boundary is modelled by the shim's fault classes; faults at close/fsync are not modelled because the crate does not call fsync and ignores close errors like std does");
     let thorough = ctx.tier.thorough();
     let dir = format!("{}/scratch/c19-{}", ctx.verif_dir, std::process::id());
@@ -240,6 +240,13 @@ pub fn run(ctx: &Ctx) -> Collector {
             ("device full", "/dev/full".to_string()),
             ("NUL in path", format!("{}/a\0b.{}", tdir, kind)),
             ("empty path", String::new()),
+            // long paths with multi-byte characters at every alignment (an error message that quotes or shortens
+            // the path must not cut a character), and a very long path component (ENAMETOOLONG)
+            ("missing directory, long non-ASCII path +0", format!("{}/{}/no/out.{}", tdir, "\u{e9}".repeat(40), kind)),
+            ("missing directory, long non-ASCII path +1", format!("{}/x{}/no/out.{}", tdir, "\u{e9}".repeat(40), kind)),
+            ("missing directory, long non-ASCII path +2", format!("{}/xx{}\u{1F600}/no/out.{}", tdir, "\u{20ac}".repeat(30), kind)),
+            ("missing directory, long non-ASCII path +3", format!("{}/xxx{}/no/\u{4e2d}\u{6587}.{}", tdir, "\u{1F600}".repeat(20), kind)),
+            ("name too long", format!("{}/{}.{}", tdir, "n".repeat(300), kind)),
         ] {
             match run_child(&ctx.verif_dir, kind, v, &p, &[], "fqv-no-such-marker", &logp) {
                 Ok(run) => {
@@ -251,6 +258,47 @@ pub fn run(ctx: &Ctx) -> Collector {
                     }
                 }
                 Err(e) => col.machinery_error(e),
+            }
+        }
+        // (i') no fault at all, over every kind of file already present: the result must be exactly the new output
+        // (a skipped or partial rewrite shows when the old file has the same length, shares a prefix, or is longer)
+        {
+            let mut variants: Vec<(&str, Vec<u8>)> = vec![("identical to the new output", expected.clone())];
+            let mut v1 = expected.clone();
+            if let Some(l) = v1.last_mut() {
+                *l ^= 0x20;
+            }
+            variants.push(("same length, last byte differs", v1));
+            let mut v2 = expected.clone();
+            if !v2.is_empty() {
+                let i = v2.len() * 9 / 10;
+                v2[i] ^= 0x01;
+            }
+            variants.push(("same length, one byte at 90 % differs", v2));
+            let mut v3 = expected.clone();
+            if let Some(f) = v3.first_mut() {
+                *f ^= 0x20;
+            }
+            variants.push(("same length, first byte differs", v3));
+            let mut v4 = expected.clone();
+            v4.extend_from_slice(b"TRAILING GARBAGE OF AN OLDER, LONGER FILE");
+            variants.push(("new output plus a tail", v4));
+            variants.push(("first half of the new output", expected[..expected.len() / 2].to_vec()));
+            variants.push(("empty file", vec![]));
+            for (name, old) in variants {
+                let _ = std::fs::remove_file(&path);
+                let _ = std::fs::write(&path, &old);
+                match run_child(&ctx.verif_dir, kind, v, &path, &[], "fqvtarget", &logp) {
+                    Ok(run) => {
+                        runs.fetch_add(1, Ordering::Relaxed);
+                        col.eval(Some(crate::util::fnv(format!("{}{}old:{}", kind, v, name).as_bytes())));
+                        let file = std::fs::read(&path).ok();
+                        for (k, w) in judge(&run, file, &expected, &[]) {
+                            col.violation((2, ti as u64), format!("C19/{}", k), format!("{} v{} (file already present: {}): {}", kind, v, name, w), json!({"kind": "fault", "target": kind, "version": v, "plan": [], "existing_file": name}));
+                        }
+                    }
+                    Err(e) => col.machinery_error(e),
+                }
             }
         }
         // (ii) injected fault sequences, DFS over prefixes, up to 2 deviations, with and without a stale file
